@@ -80,7 +80,16 @@ def unit(u) -> Stats:
     st = Stats()
     va = np.array(v, dtype=np.float64)
     base = A.kmask(A.minimal_ids(n))
-    Ks = list(A.knowledge_sets(n)) if n <= 4 else list(A.layered_knowledge(n, 1))
+    Ks = list(A.knowledge_sets(n)) if n <= 4 else A.few_knowledge(n) if n >= 8 else list(A.layered_knowledge(n, 1))
+    if tag.startswith("wc6:"):
+        from .. import sam6
+        Ks = [sam6.base_knowledge()] + [sam6.base_knowledge() | 1 << c for c in sam6.probe_coalitions()[:2]]
+    if tag.startswith("wc7:"):
+        from .. import sam6
+        Ks = [sam6.base_knowledge7()]
+    if tag.startswith("wc7k:"):
+        _, a_, b_, _w = tag.split(":")
+        Ks = [A.kmask(A.minimal_ids(7)) | 1 << int(a_) | 1 << int(b_)]
     comps = [SA_REF] + [f"sam_apx_{r}" for r in rs]
     for K in Ks:
         tabs = {}
@@ -111,6 +120,8 @@ def unit(u) -> Stats:
             st.nontrivial += 1
         if np.any(last.lo != sa.lo) or np.any(last.up != sa.up):
             st.count("states_where_sam_is_strictly_tighter_than_sa")
+        if len(rs) >= 2 and tabs[f"sam_apx_{rs[0]}"].key != tabs[f"sam_apx_{rs[1]}"].key:
+            st.count("states_where_a_repetition_changes_a_bound")
         st.outcomes.add(hash(last.key))
     # one long-lived object re-filled with this game after it held ANOTHER game of the class (set_value on the known coalitions,
     # no bulk reset in between): the bounds must still be those of the current knowledge, hence sound for the current game
@@ -163,6 +174,8 @@ def units(run: Run):
         us.append((3, f"plain#{i}", g, rs, 0.0, sam3[(i * 7 + 3 + seed) % len(sam3)]))
         us.append((3, f"shift#{i}", A.shifted(g, (-1, -2, 0)), R3, 0.0, sam3[(i * 5 + 1 + seed) % len(sam3)]))
         us.append((3, f"dyadic#{i}", A.scaled(g, 0.25), R3, 0.0))
+        us.append((3, f"bigshift#{i}", A.shifted(g, (-A.BIG, -2 * A.BIG, 0.0)), (0, 1, 2, 10), 0.0))
+        us.append((3, f"tiny#{i}", A.scaled(g, A.TINY), (0, 1, 2, 10), 0.0))
     sam4 = A.a4_sam() if quick else A.a4_sam((-3, -2, -1, 0))
     for i, g in enumerate(sam4):
         if not quick and i % 3 != seed % 3:
@@ -185,6 +198,17 @@ def units(run: Run):
             if quick and n == 6 and k not in (1, 3, 5):
                 continue
             us.append((n, f"budget{n}-{k}", g if k % 2 else A.shifted(g, tuple([-1, -2, 0, -1, -3, 0, -2][:n])), (0, 1, 2) if n >= 6 else (0, 1, 2, 10), 0.0))
+    # WC6: the complete 6-player weighted-coverage family on which repetitions of the SAM approximation actually change bounds
+    from .. import sam6
+    for tag, gv in sam6.family(dense_only=quick):
+        us.append((6, tag, gv, (0, 1, 2) if quick else (0, 1, 2, 3), 0.0))
+    for tag, gv in sam6.family7():
+        us.append((7, tag, gv, (0, 1, 2), 0.0))
+    for tag, gv, _k in sam6.family7_knowledge_variants():
+        us.append((7, tag, gv, (0, 1, 2), 0.0))
+    for n in ((9,) if quick else (8, 9, 10)):
+        us.append((n, f"budget{n}-3", A.budget_game(n, 3), (0, 1), 0.0))
+        us.append((n, f"budget{n}-1-shift", A.shifted(A.budget_game(n, 1), tuple([-1, -2, 0, -1, -3, 0, -2, -1, 0, -2][:n])), (1,), 0.0))
     width = 2 if quick else 8
     for name in gens.SAM_FAMILIES:
         for n in ((3, 4) if quick else (3, 4, 5)):
@@ -197,7 +221,9 @@ def units(run: Run):
 
 def cost(u) -> float:
     n, rs = u[0], u[3]
-    return (1 if n == 3 else 130 if n == 4 else 100) * (1 + sum(0.4 + 0.08 * r for r in rs))
+    if str(u[1]).startswith(("wc6:", "wc7:", "wc7k:")):
+        return 8
+    return (1 if n == 3 else 130 if n == 4 else 100 if n < 8 else 3000) * (1 + sum(0.4 + 0.08 * r for r in rs))
 
 
 def run(run: Run) -> None:
@@ -214,7 +240,10 @@ def run(run: Run) -> None:
     run.assumptions = ["quick tier: two thirds of the A4-SAM games are run with r in {0,1} only; r=1000 on a quarter of A3-SAM",
                        "float families: G2 tolerance"]
     us.sort(key=lambda u: -cost(u))
-    run.add(fanout(unit, us, chunk=1))
+    small = [u for u in us if str(u[1]).startswith(("wc6:", "wc7:", "wc7k:"))]
+    big = [u for u in us if not str(u[1]).startswith(("wc6:", "wc7:", "wc7k:"))]
+    run.add(fanout(unit, big, chunk=1))
+    run.add(fanout(unit, small, chunk=24))
 
 
 def replay(doc: dict):
